@@ -488,7 +488,7 @@ impl Prop for ProgProp {
         vec![
             "the reference interpreter (harness/src/model.rs) encodes the documented semantics: wrapping two's-complement integers, truncating division, IEEE-754 floats via Rust f32/f64, value semantics for aggregates, shared lists, left-to-right evaluation".into(),
             "float results compared bitwise except that any NaN equals any NaN".into(),
-            "(program, input) pairs the model predicts to trap (integer division by zero, MIN / -1) are not executed and are counted under excluded_by_known_finding".into(),
+            "(program, input) pairs the model predicts to trap (integer division by zero) are not executed (MIN / -1 wraps and is executed) and are counted under excluded_by_known_finding".into(),
             "program size is bounded (expression depth <= 5, node budget ~300)".into(),
         ]
     }
